@@ -9,6 +9,9 @@
 (*                Dependencies.composite_types, the language-name set of _new_language_map)                 *)
 (*     cwd        working directory of the process                                                         *)
 (*     loc        absolute location of the input (and output) directories                                   *)
+(*     outst      state of the output directory before the run: 1 empty, 2 holds the (longer) output of an     *)
+(*                earlier run of the same inputs with other options at the same paths                           *)
+(*     hist       history of the process: 1 fresh, 2 has executed a run with other options before               *)
 (* One action per critical step of the real code:                                                          *)
 (*     IndexType   build_namespace_tree, loop 1: one type -> namespace_index gets its ancestors             *)
 (*     Link        build_namespace_tree, loop 2: `for full_namespace in namespace_index` (HASH ORDER)       *)
@@ -40,6 +43,13 @@
 (*                                                              (closed = package name and version only)       *)
 (*     template_dir_spelling  ... or by the path as spelled on the command line, i.e. relative to the cwd      *)
 (*                                                              (closed = likewise)                            *)
+(*     stale_tail      _generate_code opens the output without truncating it: where the output directory holds a *)
+(*                     LONGER file at the same path (left by an earlier, different run) its tail survives        *)
+(*                                                              (closed = open(path, "w") truncates)           *)
+(*     process_memo_keyed_too_coarsely   a value that depends on the options (the include path of the support   *)
+(*                     header: support_namespace) is memoised process-wide under a key that omits them, so an    *)
+(*                     earlier run with OTHER options in the same process decides it                             *)
+(*                                                              (closed = computed per run)                    *)
 (* The header comment (source path, time stamp, platform) is gated by embed_auditing_info in every target.   *)
 (* TLC checks  Refines  (the P-layer history machine accepts run 2 after run 1) for every namespace shape,    *)
 (* every permutation of every set iteration, every pair of ambient states.                                   *)
@@ -52,21 +62,23 @@ CONSTANTS
     Audits,       \* values of embed_auditing_info explored, subset of BOOLEAN
     OpenSets,     \* a set of sets of gate names; Init picks one of them as `open`
     SortedWalk,   \* TRUE: nested namespaces are visited in sorted order; FALSE: in set-iteration order
-    Vary          \* ambient dimensions in which run 2 may differ from run 1, subset of {"clock", "loc", "cwd"}
+    Vary          \* ambient dimensions in which run 2 may differ from run 1, subset of AmbDims
 
+AmbDims == {"clock", "loc", "cwd", "outst", "hist"}
 Gates == {"gzip_mtime", "ns_time", "model_abspath", "assert_abspath", "model_cache", "pp_carry", "include_order",
-          "html_order", "filter_owner", "template_dir_abspath", "template_dir_spelling"}
+          "html_order", "filter_owner", "template_dir_abspath", "template_dir_spelling", "stale_tail",
+          "process_memo_keyed_too_coarsely"}
 
 (* the targets whose templates / filters sit behind a gate                                                  *)
 GateLangs == [g \in Gates |-> CASE g \in {"gzip_mtime", "ns_time", "model_abspath", "model_cache"} -> {"py"}
-                                 [] g \in {"assert_abspath", "include_order"} -> {"c", "cpp"}
+                                 [] g \in {"assert_abspath", "include_order", "process_memo_keyed_too_coarsely"} -> {"c", "cpp"}
                                  [] g = "html_order" -> {"html"}
                                  [] OTHER -> {"c", "cpp", "py", "html"}]
 
 ASSUME /\ OpenSets \subseteq SUBSET Gates
        /\ Langs \subseteq {"c", "cpp", "py", "html"}
        /\ Audits \subseteq BOOLEAN /\ SortedWalk \in BOOLEAN
-       /\ Vary \subseteq {"clock", "loc", "cwd"}
+       /\ Vary \subseteq AmbDims
 
 VARIABLES types, user, dep, lang, audit, open,   \* the stimulus: inputs, options, which gates are open (fixed by Init)
           amb,                               \* amb[r]: ambient state of run r
@@ -121,11 +133,9 @@ DepsStar(t) == IF dep = "chain" THEN {Chain[k] : k \in (PosOf(t) + 1)..Len(Chain
 NsTypes == lang \in {"py", "html"}           \* a Namespace template exists only for these targets
 OtherLangs == {"c", "cpp", "py", "html"} \ {lang}
 
-Ambients == {a \in [clock : {1, 2}, loc : {1, 2}, cwd : {1, 2}] :
-                /\ a.clock = 2 => "clock" \in Vary
-                /\ a.loc = 2 => "loc" \in Vary
-                /\ a.cwd = 2 => "cwd" \in Vary}
-A1 == [clock |-> 1, loc |-> 1, cwd |-> 1]
+Ambients == {a \in [clock : {1, 2}, loc : {1, 2}, cwd : {1, 2}, outst : {1, 2}, hist : {1, 2}] :
+                \A d \in AmbDims : a[d] = 2 => d \in Vary}
+A1 == [clock |-> 1, loc |-> 1, cwd |-> 1, outst |-> 1, hist |-> 1]
 
 Fresh == /\ pc = "index" /\ pend = SortT(types) /\ idx = {} /\ todo = {} /\ kids = [n \in NSU |-> {}]
          /\ stack = <<>> /\ touched = {} /\ owner = lang /\ order = <<>>
@@ -179,6 +189,8 @@ Prev == IF order = <<>> THEN 0 ELSE order[Len(order)][3]      \* trailing-blank 
 Lead == IF "pp_carry" \in open THEN Prev ELSE 0
 
 Header == [src |-> IF audit THEN A.loc ELSE 0, time |-> IF audit THEN A.clock ELSE 0]
+StaleTail == IF "stale_tail" \in open THEN A.outst ELSE 1              \* 2: the tail of an older, longer file follows the new text
+SupInc == IF lang \in {"c", "cpp"} /\ "process_memo_keyed_too_coarsely" \in open THEN A.hist ELSE 1   \* whose support include path
 TSets == [loc |-> IF "template_dir_abspath" \in open THEN A.loc ELSE 0,       \* what nunavut.template_sets renders to
           cwd |-> IF "template_dir_spelling" \in open THEN A.cwd ELSE 0]
 
@@ -186,6 +198,8 @@ TypeContent(t, incl) ==
     [def      |-> t,
      hdr      |-> Header,
      tsets    |-> TSets,
+     tail     |-> StaleTail,
+     supinc   |-> SupInc,
      assert   |-> IF lang \in {"c", "cpp"} /\ "assert_abspath" \in open THEN A.loc ELSE 0,
      includes |-> IF lang \in {"c", "cpp"} THEN incl ELSE <<>>,
      mpath    |-> IF lang = "py" /\ "model_abspath" \in open THEN A.loc ELSE 0,
@@ -197,6 +211,7 @@ TypeContent(t, incl) ==
 NsContent(n, nested) ==
     [ns      |-> n,
      tsets   |-> TSets,
+     tail    |-> StaleTail,
      members |-> SortT({t \in types : t[1] = n}),
      time    |-> IF lang = "py" /\ (audit \/ "ns_time" \in open) THEN A.clock ELSE 0,
      nested  |-> IF lang = "html" THEN nested ELSE <<>>,
@@ -211,7 +226,7 @@ Write(path, content, trail) ==
 GenSupport ==
     /\ run < 3 /\ pc = "support"
     /\ IF lang = "html" THEN UNCHANGED <<fs, order>>
-       ELSE Write(<<"sup", Root>>, [support |-> lang, lead |-> Lead], 0)
+       ELSE Write(<<"sup", Root>>, [support |-> lang, lead |-> Lead, tail |-> StaleTail], 0)
     /\ stack' = <<[ns |-> Root, stage |-> "ns", pt |-> <<>>, pk |-> {}]>>
     /\ pc' = "walk"
     /\ UNCHANGED <<Stim, amb, run, pend, idx, todo, kids, touched, owner, orders>>
@@ -294,7 +309,7 @@ TypeOK == /\ run \in 1..3 /\ pc \in {"index", "link", "env", "support", "walk"}
           /\ idx \subseteq NSU /\ todo \subseteq idx /\ touched \subseteq types
 
 (* ---- emission (spec -> code) ----                                                                       *)
-DimOf == {d \in {"clock", "loc", "cwd"} : amb[1][d] # amb[2][d]}
+DimOf == {d \in AmbDims : amb[1][d] # amb[2][d]}
 ShapeJson == [types |-> [i \in 1..Cardinality(types) |-> [ns |-> SortT(types)[i][1], k |-> SortT(types)[i][2]]],
               user  |-> IF user = None THEN 0 ELSE CHOOSE i \in 1..Cardinality(types) : SortT(types)[i] = user,
               dep   |-> dep]
